@@ -51,6 +51,7 @@ func (c16) Gen(r *rand.Rand, tier string, run int) *core.Case {
 		actors = 1 + r.IntN(2)
 	}
 	c.Params["slow_ms"] = r.IntN(4)
+	c.Params["instrument"] = []int{0, 0, 0, 1, 2, 3}[r.IntN(6)]
 	if r.IntN(4) == 0 {
 		c.Params["broken"] = 1
 		c.Params["break_after"] = r.IntN(60)
@@ -271,6 +272,16 @@ func (c16) Run(c *core.Case, env *core.Env) {
 		if o == nil {
 			env.Violate("setup/add", "adding an object failed")
 			return
+		}
+		if k := c.P("instrument", 0); k > 0 && len(o.proxies) > 0 {
+			// statistics / tracing switched on before anybody subscribes
+			if k&1 != 0 {
+				o.proxies[0].EnableStats(true)
+			}
+			if k&2 != 0 {
+				o.proxies[0].EnableTrace(true)
+			}
+			env.Probe("object-instrumented")
 		}
 		if victim != nil {
 			vp, err := ProbeProxy(victim, w.ServiceID, o.id)
